@@ -170,7 +170,7 @@ class BirthDeath(Distribution):
         e = torch.exp(-A * self.origin)
         q0 = 4.0 * e / torch.pow(e * (1.0 - B) + (1.0 + B), 2)
 
-        log_p = torch.log(q0)
+        log_p = torch.log(q0[..., 0])
         # condition on sampling at least one individual
         if self.survival:
             log_p -= torch.log(1.0 - p[..., 0])
